@@ -564,6 +564,78 @@ fn psweep(label: &str, n: usize, level: Level, j: super::progspace::Judge) -> Bo
     Box::new(ProgSweep { label: label.into(), n, level, judge: j, verdict_on_crash: false })
 }
 
+/// Crunched spellings: lines whose blanks all sit between words, numbers and
+/// identifiers. With any subset of those blanks removed (and in lower case)
+/// the line must list *exactly* like the spaced spelling - the lister puts the
+/// blank back around every keyword and word operator - and parse to the same
+/// statements.
+struct Crunched;
+
+const CRUNCH_LINES: [&str; 14] = [
+    "PRINT J MOD K;17 MOD I",
+    "PRINT A AND B OR C XOR Q IMP E EQV NOT F",
+    "FOR I=1 TO 9 STEP 2:NEXT I",
+    "IF A THEN 10 ELSE 20",
+    "IF A THEN PRINT B ELSE PRINT C",
+    "ON A GOTO 10,20",
+    "ON A GOSUB 10,20",
+    "WHILE A:WEND",
+    "DEF FNA(X)=X MOD 2",
+    "INPUT A,B$",
+    "READ A:RESTORE 10:DATA 1",
+    "SWAP A,B:ERASE C:DIM Q(3)",
+    "LET A=B OR C",
+    "GOSUB 10:RETURN",
+];
+
+impl Sweep for Crunched {
+    fn name(&self) -> String {
+        "crunched-spellings-list-exactly".into()
+    }
+    fn shards(&self) -> usize {
+        CRUNCH_LINES.len()
+    }
+    fn run_shard(&self, shard: usize, ctx: &mut Ctx) {
+        let canon = format!("10 {}", CRUNCH_LINES[shard]);
+        let body = CRUNCH_LINES[shard];
+        let blanks: Vec<usize> = body.char_indices().filter(|(_, c)| *c == ' ').map(|(i, _)| i).collect();
+        for mask in 1u32..(1 << blanks.len()) {
+            for lower in [false, true] {
+                let mut v = String::new();
+                for (i, c) in body.char_indices() {
+                    if let Some(k) = blanks.iter().position(|b| *b == i) {
+                        if mask & (1 << k) != 0 {
+                            continue;
+                        }
+                    }
+                    v.push(if lower { c.to_ascii_lowercase() } else { c });
+                }
+                let vline = format!("10 {}", v);
+                if !ctx.begin(&format!("{}  ~~[crunched]~~>  {}", canon, vline)) {
+                    continue;
+                }
+                let r = guard(|| (BLine::new(&canon).to_string(), BLine::new(&vline).to_string()));
+                match r {
+                    Err(p) => ctx.violation("crunched/panic", p),
+                    Ok((a, b)) => {
+                        ctx.nontrivial(hash64(&(shard, mask)));
+                        if a != canon {
+                            ctx.skip("canonical spelling is not what LIST shows (harness)");
+                        } else if a != b {
+                            ctx.violation("crunched/lists-differently", format!("{:?} lists as {:?}, the spaced spelling as {:?}", vline, b, a));
+                        } else if let (Ok(x), Ok(y)) = (ast_of(&canon), ast_of(&vline)) {
+                            if x != y {
+                                ctx.violation("crunched/parses-differently", format!("{:?} parses to {}, the spaced spelling to {}", vline, y, x));
+                            }
+                        }
+                    }
+                }
+            }
+        }
+        ctx.sample();
+    }
+}
+
 impl Check for C16 {
     fn id(&self) -> &'static str {
         "C16"
@@ -572,6 +644,7 @@ impl Check for C16 {
         match tier {
             Tier::Quick => vec![
                 Box::new(LangSweep { pairs: true }),
+                Box::new(Crunched),
                 psweep("listing-pairs", 1, Level::Full, Box::new(judge_listing(true))),
                 psweep("listing-pairs", 2, Level::Medium, Box::new(judge_listing(true))),
                 psweep("run-single", 1, Level::Full, Box::new(judge(false))),
@@ -579,6 +652,7 @@ impl Check for C16 {
             ],
             Tier::Thorough => vec![
                 Box::new(LangSweep { pairs: true }),
+                Box::new(Crunched),
                 psweep("listing-pairs", 1, Level::Full, Box::new(judge_listing(true))),
                 psweep("listing-pairs", 2, Level::Full, Box::new(judge_listing(true))),
                 psweep("listing-pairs", 3, Level::Medium, Box::new(judge_listing(true))),
